@@ -9,6 +9,7 @@ IA = Iv([3, -2, 0, 7])
 
 
 def register(rng):
+    register_wide(rng)
     E("pd.DataFrame:2d-columns", "a", "pd.DataFrame(a, columns=['x', 'y', 'z'])", [[F2], [F([], shape=(0, 3))], [Iv([[1, 2, 3]])]], ["pd.DataFrame"], cat="pandas")
     E("pd.DataFrame:2d-columns-split", "a", "pd.DataFrame(a, columns='x y z'.split())", [[F2]], ["pd.DataFrame", "str.split"], cat="pandas")
     E("pd.DataFrame:2d-default-columns", "a", "pd.DataFrame(a)", [[I2]], ["pd.DataFrame"], cat="pandas")
@@ -99,3 +100,47 @@ def register(rng):
     P("df.to_csv:int-column", "a, t, p", "df = pd.DataFrame({'t': t, 'x': a})\ndf.to_csv(p, float_format='%.6f', index=False)\nreturn 0", [[F([0.5, 1.5]), Iv([1, 2]), OUT(".csv")]], ["df.to_csv"], cat="file")
     P("df.to_csv:snapshot-at-call", "a, p", "df = pd.DataFrame(a, columns=['x', 'y'])\ndf.to_csv(p, float_format='%.6f', index=False)\ndf['x'] += 1\nreturn df", [[F([[1.0, 2.0]]), OUT(".csv")]], ["df.to_csv"], cat="file")
     P("df.to_csv:with-index", "a, p", "pd.DataFrame(a, columns=['x', 'y']).to_csv(p, float_format='%.6f')\nreturn 0", [[F([[1.0, 2.0]]), OUT(".csv")]], ["df.to_csv"], cat="file")
+
+
+def register_wide(rng):
+    """the wide-frame model of pyvc/libext/C15.py (frames whose number of columns is symbolic) is only reachable with symbolic-length
+    arguments: the vector_fft_corr pattern on concrete data"""
+    from libcheck_corpus import P
+    q = F([[0.5, 0.0, 0.5], [0.0, 0.5, 0.5], [0.5, 0.5, 0.75]])
+    corr = F([[1.0, 0.5, 0.25], [1.0, 0.75, 0.125]])      # (T, Q): column n of the wide frame = corr[:, n]
+    tt = F([0.0, 1.0])
+    P("wide:DataFrame(0,columns=arange,index=arange)", "q, c, t", """
+        cal = pd.DataFrame(0, columns=np.arange(q.shape[0]), index=np.arange(c.shape[0]))
+        return cal.shape, cal.values * 1.0
+    """, [[q, corr, tt]], ["pd.DataFrame", "np.arange"], cat="pandas", props=["C15"], modes=["sym"], kind="rel")
+    P("wide:DataFrame(0,...):dtype", "q, c", """
+        cal = pd.DataFrame(0, columns=np.arange(q.shape[0]), index=np.arange(c.shape[0]))
+        return cal.values
+    """, [[q, corr]], ["pd.DataFrame"], cat="pandas", props=["C15"], modes=["sym"], kind="rel",
+      limitation="pyvc/libext/C15.py models the block of a wide frame over the reals (class float); pandas keeps int64 for pd.DataFrame(0, ...) until a float column is assigned: values agree, the dtype class of .values does not (documented there)")
+    P("wide:column-assignment-index-T-concat-round", "q, c, t", """
+        cal = pd.DataFrame(0, columns=np.arange(q.shape[0]), index=np.arange(c.shape[0]))
+        for n in range(3):
+            cal[n] = c[:, n]
+        cal.index = t
+        head = pd.DataFrame(q, columns=['q0', 'q1', 'q'])
+        final = pd.concat([head[['q0', 'q1'] + ['q']], cal.T], axis=1).round(8)
+        return final.values, final.shape, cal.T.shape, cal.T.values
+    """, [[q, corr, tt]], ["pd.DataFrame", "pd.concat", "df.round", "np.arange"], cat="pandas", props=["C15"], modes=["sym"], kind="rel")
+    P("wide:concat-misaligned-index", "q, c, t", """
+        cal = pd.DataFrame(0, columns=np.arange(q.shape[0]), index=np.arange(c.shape[0]))
+        cal.index = t + 5
+        head = pd.DataFrame(q, columns=['q0', 'q1', 'q'])
+        return pd.concat([head, cal.T.T], axis=1).values
+    """, [[q, corr, tt]], ["pd.concat"], cat="pandas", props=["C15"], modes=["sym"], kind="rel")
+    P("wide:setitem-new-label", "q, c", """
+        cal = pd.DataFrame(0, columns=np.arange(q.shape[0]), index=np.arange(c.shape[0]))
+        cal[7] = c[:, 0]
+        return cal.shape
+    """, [[q, corr]], ["pd.DataFrame"], cat="pandas", props=["C15"], modes=["sym"], kind="rel")
+    P("wide:values-store", "q, c", """
+        cal = pd.DataFrame(0.5, columns=np.arange(q.shape[0]), index=np.arange(c.shape[0]))
+        v = cal.values
+        v[0, 0] = 9
+        return cal.values
+    """, [[q, corr]], ["pd.DataFrame"], cat="pandas", props=["C15"], modes=["sym"], kind="rel")
